@@ -132,8 +132,12 @@ LeafPool(n, pv) ==
     [] n = "uint8" -> << I(0, 0), I(0, 1), I(0, 255) >>
     [] n = "uint32" -> << I(0, 0), I(0, 1), I(0, -1), I(0, 2147483647) >>      \* -1: the all-ones word
     \* 64 bit: <<hi, lo>> words; -1 stands for the all-ones word
-    [] n = "int64"  -> << I(0, 0), I(0, 1), I(1, 1), I(1, 0), I(-1, 1), I(-1, -1), I(0, -1) >>
-    [] n = "uint64" -> << I(0, 0), I(0, 1), I(1, 1), I(1, 0), I(-1, 1), I(-1, -1), I(0, -1) >>
+    \* around 2^53 (hi = 2097152: neighbours are not distinguishable as float64), around -2^53, near the extremes
+    [] n = "int64"  -> << I(0, 0), I(0, 1), I(1, 1), I(1, 0), I(-1, 1), I(-1, -1), I(0, -1),
+                          I(2097151, -1), I(2097152, 0), I(2097152, 1), I(2097152, 2), I(-2097152, 0), I(-2097153, -1),
+                          I(-2097152, 1), I(2147483647, -1), I(2147483647, 0), I(2147483647, 1), I(-2147483647, 0), I(-2147483647, 1) >>
+    [] n = "uint64" -> << I(0, 0), I(0, 1), I(1, 1), I(1, 0), I(-1, 1), I(-1, -1), I(0, -1),
+                          I(2097151, -1), I(2097152, 0), I(2097152, 1), I(2097152, 2), I(2147483647, -1), I(2147483647, 0), I(-1, 0) >>
     [] n = "float64" -> << F("nan"), F("+0"), F("-0"), F("1"), F("-1"), F("inf"), F("nan2"), F("1.5"), F("1e21") >>
     [] n = "float32" -> << F("nan"), F("+0"), F("-0"), F("1"), F("0.1") >>
     [] n = "complex128" -> << C("nan", "1"), C("1", "nan"), C("nan", "nan"), C("+0", "-0"), C("-0", "+0"),
@@ -157,7 +161,7 @@ LeafElem(n) ==
     [] n \in {"int8", "int32", "int"} -> << I(0, 0), I(0, 1), I(0, -1) >>
     [] n = "uint8" -> << I(0, 0), I(0, 1), I(0, 255) >>
     [] n = "uint32" -> << I(0, 0), I(0, 1), I(0, -1) >>
-    [] n \in {"int64", "uint64"} -> << I(0, 1), I(1, 1), I(1, 0), I(-1, 1) >>
+    [] n \in {"int64", "uint64"} -> << I(0, 1), I(1, 1), I(1, 0), I(-1, 1), I(2097152, 0), I(2097152, 1) >>
     [] n = "float64" -> << F("nan"), F("+0"), F("-0"), F("1") >>
     [] n = "float32" -> << F("nan"), F("+0"), F("-0"), F("0.1") >>
     [] n = "complex128" -> << C("nan", "1"), C("+0", "-0"), C("-0", "+0"), C("1", "1") >>
